@@ -245,7 +245,7 @@ static int api_is_float(const char* name) {
 static void dispatch_case(int oi, uint64_t N, unsigned sd) {
   const opdef_t* o = &OPS[oi];
   pclass_t cl = api_is_float(o->name) ? CL_FLOAT : classify(o->name);
-  if (!strcmp(o->name, "vec_znx_idft") || !strcmp(o->name, "vec_znx_idft_tmp_a")) cl = CL_ROUND_ZNX64;  // inverse DFT ends with a rounding
+  if (!strncmp(o->name, "vec_znx_idft", 12) && !strstr(o->name, "@ntt120")) cl = CL_ROUND_ZNX64;  // every FFT64 inverse DFT entry (in-place one included) ends with a rounding
   if (!strcmp(o->name, "reim_to_tnx")) cl = CL_TORUS;
   char key[160];
   snprintf(key, sizeof key, "%s@native~generic|%s", o->name, cl_name[cl]);
